@@ -37,6 +37,9 @@ PROPERTY = "C16"
 # ring library: fused / non-benzenoid aromatics, small lactones and acetals, hetero-aromatic
 # hydroxy compounds (where an unfolded ring pattern can be laid along a different ring)
 RING_LIBRARY = [
+    # charged / isotope-labelled atoms inside an occurrence on a fused aromatic system
+    "[O-]c1ccc2ccccc2c1", "[NH3+]c1ccc2ccccc2c1", "[18OH]c1ccc2ccccc2c1", "[O-]c1cccc2ccccc12", "[2H]Oc1ccc2ccccc2c1",
+    "[15NH2]c1ccc2ccccc2c1", "[O-]c1ccc2cccccc12",
     # hypervalent S / P with five and six neighbours (neighbour enumeration beyond 4), in two atom orders
     "CS(C)(F)(F)(F)F", "FS(F)(F)(F)(C)C", "CS(F)(F)(F)(F)F", "FS(F)(F)(F)(F)C", "CP(F)(F)(F)F", "FP(F)(F)(F)C",
     "COP(Cl)(Cl)(Cl)Cl", "ClP(Cl)(Cl)(Cl)OC", "CS(C)(C)(C)(C)C", "CSC(=O)S(F)(F)(F)(F)C", "FS(F)(F)(F)(C)C(=O)SC",
